@@ -58,6 +58,7 @@ type c12AppCase struct {
 	K       int    `json:"k"`
 	ExitMs  int    `json:"exit_delay_ms"`
 	StallUs int    `json:"writer_delay_us_per_record"`
+	Rate    string `json:"rate,omitempty"` // --rate N/W: workers wait for the limiter when the cancel arrives
 }
 
 type c12Hook struct {
@@ -197,6 +198,12 @@ func c12AppCheck(c c12AppCase) *kit.Verdict {
 		h.k = 1
 	}
 	o := &genericScanCmdOpts{ipFile: f.Name(), workers: c.Workers}
+	if c.Rate != "" {
+		v.Label("rate-limited")
+		if o.rateCount, o.rateWindow, err = parseRateLimit(c.Rate); err != nil {
+			return v.Failf("harness: rate %q: %v", c.Rate, err)
+		}
+	}
 	sc := &c12Scanner{c: c, h: h, expect: int64(calls)}
 	w := &c12Writer{h: h, delay: time.Duration(c.StallUs) * time.Microsecond}
 	real, err := log.NewLogger(w, "c12", log.JSON())
@@ -300,7 +307,7 @@ func c12Desc(c c12AppCase) string {
 func TestC12App(t *testing.T) {
 	kit.Run(t, kit.Spec[c12AppCase]{
 		Prop: "C12",
-		Rule: "application engine as the commands assemble it (genericScanCmdOpts.newScanEngine over a generated target file, real ResultChan, real JSON logger, startScanEngine) with a drawn outcome per target (positive / negative / error / bad line / probes that are still in flight at the cancel and then fail or report), 1..1000 workers, 0..3000 targets (more results than the 2x1000-slot buffers, more errors than the 100-slot buffers), prompt or slow output writer; the parent context is cancelled synchronously at an exact point: before the start, after the k-th probe start / k-th record written / k-th error logged (k drawn over the whole run), or inside the exit delay (30 ms .. 10 min long). Oracle: the call returns within 30 s of the cancel (else goroutine dump), nothing is written or logged after it returned, the output is a sequence of complete JSON lines, the process survives (race detector on). non-trivial: cancel strictly inside a run of >=2 targets; distinct by case",
+		Rule: "application engine as the commands assemble it (genericScanCmdOpts.newScanEngine over a generated target file, real ResultChan, real JSON logger, startScanEngine) with a drawn outcome per target (positive / negative / error / bad line / probes that are still in flight at the cancel and then fail or report), 1..1000 workers, 0..3000 targets (more results than the 2x1000-slot buffers, more errors than the 100-slot buffers), prompt or slow output writer, optionally a slow --rate (workers waiting for the limiter at the cancel); the parent context is cancelled synchronously at an exact point: before the start, after the k-th probe start / k-th record written / k-th error logged (k drawn over the whole run), or inside the exit delay (30 ms .. 10 min long). Oracle: the call returns within 30 s of the cancel (else goroutine dump), nothing is written or logged after it returned, the output is a sequence of complete JSON lines, the process survives (race detector on). non-trivial: cancel strictly inside a run of >=2 targets; distinct by case",
 		Gen: func(t *rapid.T) c12AppCase {
 			c := c12AppCase{N: rapid.SampledFrom([]int{0, 1, 2, 30, 150, 1200, 3000}).Draw(t, "n"), Workers: rapid.SampledFrom([]int{1, 2, 8, 100, 1000}).Draw(t, "workers"),
 				ExitMs: rapid.SampledFrom([]int{30, 300}).Draw(t, "exit"), StallUs: rapid.SampledFrom([]int{0, 0, 50, 400}).Draw(t, "stall")}
@@ -334,6 +341,11 @@ func TestC12App(t *testing.T) {
 			}
 			if c.StallUs > 0 && c.N > 200 {
 				c.StallUs = 50
+			}
+			if c.Kind == "probe" && c.N >= 30 && rapid.IntRange(0, 3).Draw(t, "rate") == 0 {
+				// a slow rate: when the cancel arrives (early in the scan) every other worker is waiting for the limiter
+				c.Rate = rapid.SampledFrom([]string{"1/2s", "30/m", "2/s", "1/800ms"}).Draw(t, "ratestr")
+				c.K = 1 + kit.Uniform(t, "k-early", 3)
 			}
 			return c
 		},
